@@ -1102,7 +1102,7 @@ class Stage:
 
         """
  
-        return depends_on(expr, vertcat(self.x, self.u, self.z, self.t, self.DT, self.DT_control, vvcat(self.parameters['control']+self.parameters['control+']), vvcat(self.variables['control']+self.variables['control+']+self.variables['states']),vvcat(self._signals.keys()), vvcat(self._inf_der.keys())))
+        return depends_on(expr, vertcat(self.x, self.u, self.z, self.t, self.DT, self.DT_control, vvcat(self.parameters['control']+self.parameters['control+']), vvcat(self.variables['control']+self.variables['control+']+self.variables['states']),vvcat(self._signals.keys()), vvcat(self._inf_der.keys()), vvcat(list(self._offsets.keys()))))
 
     def is_parametric(self, expr):
         """Does the expression depend only on parameters?
